@@ -1,5 +1,6 @@
 import TxdbusModel.Proofs.Net.EndToEnd
 import TxdbusModel.Proofs.Net.Link
+import TxdbusModel.Proofs.Net.Progress
 import TxdbusModel.Net.OldBus
 /-!
 # C11 - a call through a proxy reaches the remote method and returns what it returned
@@ -21,6 +22,8 @@ a fairness assumption.
                           completed exactly once, answered exactly once, its completion is the
                           conversion of that answer; it was invoked exactly once on the exporter with
                           equal arguments iff the exporter's declaration accepts it
+* `quiescence_reachable`, `C11_completion_always_reachable`   from every state some schedule reaches quiescence
+                          (no message or Deferred can get stuck), hence every issued call can be completed
 * `C11_returns_what_it_returned`   what that completion is, in the words of the property: the returned
                           value / the list of returned values / None, or RemoteError mirroring the
                           exception (and the two documented conventions: a single struct comes back
@@ -126,6 +129,24 @@ theorem C11_end_to_end (w : World V) (n : Nat) (first : Nat → Nat) (steps : Li
   have inv := call_stage_invariant w n first steps
   have hn : (run w (Net.init n first) steps).n = n := run_n w _ steps
   exact inv.completed hq (by rw [hn]; exact ha) hr (by rw [hn]; exact hd)
+
+/-- **C11.3b**  Quiescence is always within reach: from EVERY state some finite schedule of deliveries and
+Deferred firings leads to a quiescent state (nothing can get stuck in a queue).  So the premise of
+`C11_end_to_end` is never vacuous. -/
+theorem quiescence_reachable (w : World V) (net : Net V) : ∃ steps, (run w net steps).Quiescent :=
+  quiescence_reachable_aux w (potential net) net (Nat.le_refl _)
+
+/-- **C11.3c**  The two together: whatever has happened so far (`steps`), the schedule can be continued
+(`more`) to a quiescent state, and there every call issued to an attached client is `Completed`. -/
+theorem C11_completion_always_reachable (w : World V) (n : Nat) (first : Nat → Nat) (steps : List (Step V)) :
+    ∃ more, (run w (Net.init n first) (steps ++ more)).Quiescent ∧
+      ∀ a, a < n → ∀ r, r ∈ ((run w (Net.init n first) (steps ++ more)).cl a).issued → r.dest < n →
+        ∃ o ans, Completed w (run w (Net.init n first) (steps ++ more)) a r o ans := by
+  obtain ⟨more, hq⟩ := quiescence_reachable w (run w (Net.init n first) steps)
+  have e : run w (Net.init n first) (steps ++ more) = run w (run w (Net.init n first) steps) more := by
+    simp [run, List.foldl_append]
+  refine ⟨more, by rw [e]; exact hq, fun a ha r hr hd => ?_⟩
+  exact C11_end_to_end w n first (steps ++ more) (by rw [e]; exact hq) a ha r hr hd
 
 /-! ## 4. what the completion is -/
 
@@ -250,5 +271,7 @@ end Txdbus.Net
 #print axioms Txdbus.Net.step_n
 #print axioms Txdbus.Net.run_n
 #print axioms Txdbus.Net.C11_end_to_end
+#print axioms Txdbus.Net.quiescence_reachable
+#print axioms Txdbus.Net.C11_completion_always_reachable
 #print axioms Txdbus.Net.C11_returns_what_it_returned
 #print axioms Txdbus.Net.prefix_model_violates
